@@ -278,7 +278,10 @@ static Reg r_loadraw("nn_loadraw", [](const Args& a) {
   { long long ts = 0;
     if (bin) { if (img.size() >= 40) { int v; std::memcpy(&v, &img[16 + 4 * 4], 4); ts = v; } }
     else { std::istringstream hs(img); long long h[6] = {0, 0, 0, 0, 0, 0}; for (int i = 0; i < 6 && (hs >> h[i]); ++i) {} ts = h[4]; }
-    if (ts > 200000) { emit("H"); return; } }
+    if (ts > 200000) { emit("H"); return; }
+    // a binary image cut inside the 40-byte header: Load(is, true) never tests the stream state, so the header fields it could not read
+    // are uninitialised locals (finding F30): the outcome depends on stack garbage; exercised separately by nn_loadtrunc
+    if (bin && img.size() < 40) { emit("U"); return; } }
   NN nn1; std::istringstream is(img);
   std::string e = guarded([&] { nn1.Load(is, bin); });
   if (e == "!E") { emit("E"); return; }
@@ -315,6 +318,22 @@ static Reg r_loaddag("nn_loaddag", [](const Args& a) {
                 std::to_string(64L * N + 64) + " distance evaluations (the cost is 2^N: an accepted file of ~1 kB makes Search run forever)");
 });
 
+// nn_loadtrunc len paint | E  or  K numpoints   — binary image cut inside the header (16 <= len < 40).  The stack is first painted with the int
+// value `paint`, so that (if Load does not test the stream state) the fields it failed to read are likely to hold `paint`
+__attribute__((noinline)) inline int paint_stack(int v) { volatile int a[4096]; for (int i = 0; i < 4096; ++i) a[i] = v; int s = 0; for (int i = 0; i < 4096; i += 512) s += a[i]; return s; }
+__attribute__((noinline)) inline std::string load_trunc(const std::string& img, int& np) { NN nn; std::istringstream is(img); std::string e = guarded([&] { nn.Load(is, true); }); np = nn.NumPoints(); return e; }
+static Reg r_loadtrunc("nn_loadtrunc", [](const Args& a) {
+  int len = std::stoi(a[0]), paint = std::stoi(a[1]);
+  std::vector<Pt> pts = make_points(1, 7, 9); DistFn df{1}; NN nn0(pts, df, 4); std::ostringstream os; nn0.Save(os, true);
+  std::string img = os.str().substr(0, std::min<size_t>(len, os.str().size()));
+  volatile int sink = paint_stack(paint); (void)sink;
+  int np = -1; std::string e = load_trunc(img, np);
+  if (e == "!E") { emit("E"); return; }
+  emit("K " + std::to_string(np));
+  if (e.empty()) bad("load-truncated-header", "Load(is, true) of a binary image cut after " + std::to_string(len) + " bytes (inside the 40-byte header) returned normally with NumPoints() = " +
+                     std::to_string(np) + " (stack painted with " + std::to_string(paint) + "): the stream state is never tested in binary mode and the header fields that could not be read are uninitialised");
+});
+
 inline std::string S(long long v) { return std::to_string(v); }
 
 inline void generate(Rng& r, bool thorough) {
@@ -324,7 +343,7 @@ inline void generate(Rng& r, bool thorough) {
     mindist = r.irange(0, 3) == 0 ? -1 : r.irange(0, 3) == 0 ? 0 : D(scale * r.pick(std::vector<double>{0.02, 0.05, 0.1, 0.3, 0.6, 0.9}));
   };
   auto size = [&]() { int c = r.irange(0, 9); return c == 0 ? r.irange(0, 3) : c < 6 ? r.irange(4, 60) : c < 9 ? r.irange(61, 300) : r.irange(301, 700); };
-  int N = thorough ? 20000 : 3000;
+  int N = thorough ? 8000 : 3000;
   for (int i = 0; i < N; ++i) {
     int kind = r.irange(0, 9) < 8 ? r.irange(0, 3) : 4; int n = size(); if (kind == 4) n = std::min(n, 120);
     int bucket = r.irange(0, 10), via = r.irange(0, 2) ? 0 : r.irange(1, 3);
@@ -341,12 +360,13 @@ inline void generate(Rng& r, bool thorough) {
     stratum(std::string("nn:bulk:") + (n > 1000 ? "large" : "medium")); run("nn_bulk", {S(kind), S(r.next() % 1000000), S(n), S(r.irange(0, 10)), S(thorough ? 40 : 16)});
   }
   for (int i = 0; i < (thorough ? 100 : 12); ++i) { stratum("nn:geodesic-double"); run("nn_geo", {S(r.next() % 1000000), S(i == 0 ? 400 : r.irange(1, 250)), S(r.irange(0, 10)), S(thorough ? 12 : 6)}); }
-  int NL = thorough ? 60000 : 6000;
+  int NL = thorough ? 24000 : 6000;
   for (int i = 0; i < NL; ++i) {
     int kind = r.irange(0, 3), n = r.irange(1, 40);
     stratum("nn:load-mutated-tokens"); run("nn_load", {S(kind), S(r.next() % 1000000), S(n), S(r.irange(0, 10)), S(r.next() % 1000000000), S(r.irange(0, 9) == 0 ? 0 : r.irange(1, 3)), S(r.next() % 1000000), S(r.irange(1, 4))});
   }
   for (int i = 0; i < (thorough ? 2000 : 200); ++i) { stratum("nn:binary-layout"); run("nn_bin", {S(r.irange(0, 4)), S(r.next() % 1000000), S(i < 3 ? i : r.irange(0, 120)), S(r.irange(0, 10))}); }
+  for (int i = 0; i < 4; ++i) { stratum("nn:load-truncated-binary-header"); run("nn_loadtrunc", {S(24 + 4 * (i % 2)), S(i < 2 ? 7 : 5)}); }
   for (int i = 0; i < 3; ++i) { stratum("nn:load-shared-children"); run("nn_loaddag", {S(r.irange(30, 60)), S(i)}); }
   for (int i = 0; i < NL; ++i) {
     int kind = r.irange(0, 3), n = r.irange(1, 40); bool bin = r.coin();
